@@ -10,6 +10,7 @@ pub mod c10;
 pub mod c11;
 pub mod c12;
 pub mod c13;
+pub mod c14;
 pub mod c15;
 pub mod c16;
 pub mod c17;
@@ -19,7 +20,7 @@ pub mod c20;
 use crate::core::PropSpec;
 
 pub fn all_specs() -> Vec<PropSpec> {
-    vec![c01::spec(), c02::spec(), c04::spec(), c05::spec(), c06::spec(), c07::spec(), c08::spec(), c09::spec(), c10::spec(), c11::spec(), c12::spec(), c13::spec(), c15::spec(), c16::spec(), c17::spec(), c18::spec(), c20::spec()]
+    vec![c01::spec(), c02::spec(), c04::spec(), c05::spec(), c06::spec(), c07::spec(), c08::spec(), c09::spec(), c10::spec(), c11::spec(), c12::spec(), c13::spec(), c14::spec(), c15::spec(), c16::spec(), c17::spec(), c18::spec(), c20::spec()]
 }
 
 pub fn spec_for(id: &str) -> Option<PropSpec> {
